@@ -358,6 +358,8 @@ use proptest::prelude::*;
 
 #[derive(Debug, Clone, Copy)]
 pub struct SmallOpts {
+    /// one object in eight is empty
+    pub allow_empty: bool,
     pub max_symbols: u32,
     pub allow_cenc: bool,
     pub allow_two_objects: bool,
@@ -367,7 +369,7 @@ pub struct SmallOpts {
 
 impl Default for SmallOpts {
     fn default() -> Self {
-        SmallOpts { max_symbols: 8, allow_cenc: false, allow_two_objects: true, allow_repeats: false, carousel: false }
+        SmallOpts { allow_empty: false, max_symbols: 8, allow_cenc: false, allow_two_objects: true, allow_repeats: false, carousel: false }
     }
 }
 
@@ -385,9 +387,9 @@ pub fn small_session_strategy(o: SmallOpts) -> BoxedStrategy<SessSpec> {
             prop_oneof![3 => Just(1u32), 1 => Just(2u32)],
             if o.allow_cenc { prop_oneof![3 => Just(0u8), 1 => 1u8..4].boxed() } else { Just(0u8).boxed() },
             any::<bool>(),
-            0u64..1000,
+            (0u64..1000, 0u8..8),
         )
-            .prop_map(move |(scheme, b, parity, blocks, fewer, e, short, inband, mtc, cenc, md5, seed)| {
+            .prop_map(move |(scheme, b, parity, blocks, fewer, e, short, inband, mtc, cenc, md5, (seed, empty))| {
                 let mut b = b;
                 let mut blocks = blocks;
                 let mut parity = parity;
@@ -413,7 +415,7 @@ pub fn small_session_strategy(o: SmallOpts) -> BoxedStrategy<SessSpec> {
                     }
                 }
                 let short = if scheme == Scheme::Raptor { 0 } else { short % e };
-                let size = (t * e as u32) as usize - short as usize;
+                let size = if o.allow_empty && empty == 0 { 0 } else { (t * e as u32) as usize - short as usize };
                 let al = if matches!(scheme, Scheme::RaptorQ | Scheme::Raptor) { 4 } else { 1 };
                 let mut ob = ObjSpec::simple(size, seed);
                 ob.oti = Some(OtiSpec { scheme, e, b, parity, inband_fti: inband, al, nsub: 1 });
